@@ -177,7 +177,8 @@ func genSSOWorld(t *rapid.T, o worldOpts) world.Spec {
 		nslo := rapid.IntRange(0, 2).Draw(t, "nslo")
 		sp.SLO = nil
 		for k := 0; k < nslo; k++ {
-			sp.SLO = append(sp.SLO, world.SLOSpec{Binding: rapid.SampledFrom([]string{world.BindPost, world.BindRedirect}).Draw(t, "slobinding"), Location: fmt.Sprintf("https://sp%d.example/slo/%d", i, k)})
+			sp.SLO = append(sp.SLO, world.SLOSpec{Binding: rapid.SampledFrom([]string{world.BindPost, world.BindRedirect}).Draw(t, "slobinding"), Location: fmt.Sprintf("https://sp%d.example/slo/%d", i, k),
+				ResponseLocation: rapid.SampledFrom([]string{"", "", fmt.Sprintf("https://sp%d.example/slo/%d/response", i, k)}).Draw(t, "sloresponselocation")})
 		}
 		spec.SPs = append(spec.SPs, sp)
 	}
